@@ -8,10 +8,18 @@
        "delivered = firstn r sent".
    (2) ghosts: the absolute indices of the frames in flight, as lists parallel to the two queues.
    (3) the host as the receiver of one direction (rx_frame) and the window-1 sender of the other
-       (handle_ack / settle / retry_or_fail): precise one-step descriptions [smove].
-   (4) the system invariant [Inv] and its preservation by every label.
+       (handle_ack / settle / retry_or_fail): precise one-step descriptions [smove], for every
+       event including a read of any number of frames [frames_smove].
+   (4) the system invariant [Inv] and its preservation by every label [inv_step], hence by every
+       run [run_inv].  The refinement: each concrete label is a few abstract moves of the two
+       directions (e.g. a read by the host = for each frame, "sender takes the head
+       acknowledgement" in the host->NCP direction and "receiver accepts/rejects the head,
+       then acknowledges" in the NCP->host direction; then possibly "sender slides" and
+       "sender transmits" for the host->NCP direction).
    (5) the theorems.
-   (6) cancellation commutes with everything. *)
+   (6) cancellation commutes with everything.
+
+   No hypothesis about floats is used: the time fields are carried along opaquely. *)
 From Coq Require Import PrimFloat ZArith NArith List Bool Arith Lia ZifyBool ZifyN ZifyNat Sorted.
 Import ListNotations.
 Require Import BV.gen.GenAsh BV.model.AshCodec BV.model.AshRx BV.model.AshHost BV.model.AshLink.
@@ -1076,11 +1084,176 @@ Proof.
   - rewrite Hrx'. exact Erx.
 Qed.
 
+(* ---- the host reads several frames at once ------------------------------------------------------- *)
+Definition dan (f : frame) : Prop := f_ack f <> None.
+
+Lemma rx_frames_cons' rx f fs :
+  rx_frames rx (f :: fs) =
+    (fst (rx_frames (fst (rx_frame rx f)) fs), snd (rx_frame rx f) ++ snd (rx_frames (fst (rx_frame rx f)) fs)).
+Proof.
+  cbn [rx_frames]. destruct (rx_frame rx f) as [rx' o]. cbn [fst snd].
+  destruct (rx_frames rx' fs) as [rx'' o']. reflexivity.
+Qed.
+
+Lemma afs_fields : forall fs st, Forall dan fs ->
+  tx_seq (fst (apply_frames st fs)) = tx_seq st /\ failed (fst (apply_frames st fs)) = failed st /\
+  waiters (fst (apply_frames st fs)) = waiters st /\
+  rx_seq (fst (apply_frames st fs)) = fst (rx_frames (rx_seq st) fs) /\
+  snd (apply_frames st fs) = flat_map out_of_rx (snd (rx_frames (rx_seq st) fs)).
+Proof.
+  induction fs as [|f fs IH]; intros st Hd; [cbn; repeat split|].
+  inversion Hd as [|? ? Hf Hfs]; subst. unfold dan in Hf.
+  destruct (f_ack f) as [a|] eqn:Ea; [|contradiction].
+  rewrite apply_frames_cons, rx_frames_cons', apply_frame_eq. cbn [fst snd].
+  destruct (core_fields st f a Ea) as (K1 & K2 & K3 & _).
+  destruct (IH (set_rx (core st f) (fst (rx_frame (rx_seq st) f))) Hfs) as (I1 & I2 & I3 & I4 & I5).
+  cbn [set_rx tx_seq failed waiters rx_seq] in I1, I2, I3, I4, I5.
+  split; [congruence|]. split; [congruence|]. split; [congruence|]. split; [exact I4|].
+  rewrite flat_map_app, I5. reflexivity.
+Qed.
+
+Lemma frames_smove st fs : GInv st -> Forall dan fs ->
+  let r := host_step st (Frames fs) in
+  let rr := rx_frames (rx_seq st) fs in
+  exists out2 akd, snd r = flat_map out_of_rx (snd rr) ++ out2 /\ rx_seq (fst r) = fst rr /\
+    smove akd st (fst rr) (fst r) out2 /\
+    (akd = true -> exists c f, cur st = Some c /\ In f fs /\ acks ((cfrm c + 1) mod 8)%N f).
+Proof.
+  intros HG Hd r rr. subst r rr. rewrite step_frames_eq. cbn [fst snd].
+  destruct (afs_fields fs st Hd) as (S1tx & S1f & S1w & S1rx & S1o).
+  set (s1 := fst (apply_frames st fs)) in *. rewrite S1o. rewrite settle_eq.
+  destruct (cur st) as [c|] eqn:Hc.
+  - destruct (ginv_cur_some st c HG Hc) as [Hp Hff].
+    destruct (afs_cur fs st c Hc) as (y & Htr & Hc1). fold s1 in Hc1. rewrite Hc1. cbn [cfut set_fut].
+    assert (Hkey : cur_key st = Some (cid (set_fut c y), cpayload (set_fut c y), cfrm (set_fut c y))).
+    { cbn [set_fut cid cpayload cfrm]. apply cur_key_some. exact Hc. }
+    unfold fut_tr in Htr. rewrite Hp in Htr.
+    destruct Htr as [Ey|(_ & [(Ey & f & Hin & Hack)|[(Ey & _)|(code & Ey & f & Hin & v & Ef)]])]; subst y.
+    + exists [], false. cbn [fst snd]. rewrite app_nil_r. split; [reflexivity|]. split; [exact S1rx|].
+      split; [|discriminate]. apply SM_none; try assumption.
+      * unfold cur_key. rewrite Hc1, Hc. reflexivity.
+      * exact nw_nil.
+      * reflexivity.
+    + set (s2 := set_t s1 (on_ack_time (t_ack s1) (PrimFloat.sub (now s1) (csent (set_fut c FAcked))))).
+      change (done_out s1 (cid (set_fut c FAcked)) OOk) with (done_out s2 (cid (set_fut c FAcked)) OOk).
+      destruct (acked_smove st s2 (set_fut c FAcked) (fst (rx_frames (rx_seq st) fs)) Hkey) as [Hm Hr];
+        try assumption.
+      * cbn [s2 set_t failed]. rewrite S1f. exact Hff.
+      * eexists _, true. split; [reflexivity|]. split; [exact Hr|]. split; [exact Hm|].
+        intros _. exists c, f. split; [reflexivity|]. split; [exact Hin|exact Hack].
+    + set (s2 := set_t s1 (on_ack_time (t_ack s1) (PrimFloat.sub (now s1) (csent (set_fut c FNaked))))).
+      destruct (retry_smove false st s2 (set_fut c FNaked) ONotAcked (fst (rx_frames (rx_seq st) fs)) Hkey)
+        as [Hm Hr]; try assumption; try discriminate.
+      * cbn [s2 set_t failed]. rewrite S1f. exact Hff.
+      * eexists _, false. split; [reflexivity|]. split; [exact Hr|]. split; [exact Hm|discriminate].
+    + exfalso. rewrite Forall_forall in Hd. specialize (Hd f Hin). subst f. apply Hd. reflexivity.
+  - destruct (afs_misc fs st) as (_ & _ & _ & Kn). specialize (Kn Hc). fold s1 in Kn. rewrite Kn.
+    exists [], false. cbn [fst snd]. rewrite app_nil_r. split; [reflexivity|]. split; [exact S1rx|].
+    split; [|discriminate]. apply SM_none; try assumption.
+    + unfold cur_key. rewrite Kn, Hc. reflexivity.
+    + exact nw_nil.
+    + reflexivity.
+Qed.
+
+Lemma fr_ok_dan S f g : fr_ok S f g -> dan f.
+Proof. intro H. unfold dan. rewrite (fr_ok_ack _ _ _ H). discriminate. Qed.
+
+(* the receiver half over a whole read *)
+Lemma rxs_phase K nb nn (nsub : list (list N)) P2 : K <= 7 -> forall fs gfs, Forall2 (fr_ok nsub) fs gfs ->
+  forall (hupl : list (list N)) gq g1 rx q1,
+  rx = num8 (length hupl) ->
+  Dir K nb nn (length hupl) nsub hupl (dgs (gfs ++ gq)) (ags g1) ->
+  Forall2 (fr_ok P2) q1 g1 ->
+  let o1 := flat_map out_of_rx (snd (rx_frames rx fs)) in
+  exists g1a,
+    first_tx o1 = [] /\ oks o1 = [] /\ dgs g1a = [] /\
+    fst (rx_frames rx fs) = num8 (length (hupl ++ ups_of o1)) /\
+    Dir K nb nn (length (hupl ++ ups_of o1)) nsub (hupl ++ ups_of o1) (dgs gq) (ags (g1 ++ g1a)) /\
+    Forall2 (fr_ok P2) (q1 ++ wire o1) (g1 ++ g1a).
+Proof.
+  intro HK. induction 1 as [|f gf fs gfs Hf Hfs IH]; intros hupl gq g1 rx q1 Hrx D1 F2 o1; subst o1.
+  - cbn [rx_frames fst snd flat_map app ups_of first_tx oks wire]. exists []. rewrite !app_nil_r.
+    split; [reflexivity|]. split; [reflexivity|]. split; [reflexivity|]. split; [exact Hrx|].
+    split; [exact D1|exact F2].
+  - rewrite rx_frames_cons'. cbn [fst snd]. cbn [app] in D1.
+    destruct (rx_phase K nb nn nsub hupl f gf (gfs ++ gq) g1 rx P2 q1 HK Hf Hrx D1 F2)
+      as (ga1 & A1 & A2 & A3 & A4 & A5 & A6). cbv zeta in A1, A2, A3, A4, A5, A6.
+    destruct (IH _ gq _ _ _ A4 A5 A6) as (ga2 & B1 & B2 & B3 & B4 & B5 & B6).
+    cbv zeta in B1, B2, B3, B4, B5, B6.
+    exists (ga1 ++ ga2).
+    rewrite flat_map_app, first_tx_app, oks_app, ups_of_app, wire_app, dgs_app, A1, A2, A3, B1, B2, B3.
+    rewrite !app_assoc. split; [reflexivity|]. split; [reflexivity|]. split; [reflexivity|].
+    split; [exact B4|]. split; [exact B5|exact B6].
+Qed.
+
+Lemma dir_adrop {P} W b n r (S D : list P) dg l : forall ag,
+  Dir W b n r S D dg (l ++ ag) -> Dir W b n r S D dg ag.
+Proof.
+  induction l as [|a l IH]; intros ag H; [exact H|]. apply IH. eapply dir_atl. exact H.
+Qed.
+
+Lemma dir_amid {P} W b n r (S D : list P) dg l ag a :
+  Dir W b n r S D dg (l ++ ag) -> In a l -> b <= a /\ a <= r /\ Forall (fun x => a <= x) ag.
+Proof.
+  induction l as [|a0 l IH]; intros H Hin; [destruct Hin|].
+  destruct Hin as [E|Hin].
+  - subst a0. cbn [app] in H. destruct (dir_ahead _ _ _ _ _ _ _ _ _ _ H) as (H1 & H2 & H3).
+    split; [exact H1|]. split; [exact H2|]. apply Forall_app in H3. apply H3.
+  - apply IH; [|exact Hin]. eapply dir_atl. exact H.
+Qed.
+
+Lemma inv_hread K subs s n : K <= 7 -> SInv K subs s ->
+  SInv K subs (host_do (set_n2h s (skipn n (n2h s))) (Frames (firstn n (n2h s)))).
+Proof.
+  intros HK (g1 & g2 & hb & [Hg Hrx Hhl Hnr D1 D2 F1 F2]).
+  set (fs := firstn n (n2h s)). set (q := skipn n (n2h s)).
+  assert (Eq : n2h s = fs ++ q) by (symmetry; apply firstn_skipn). rewrite Eq in F1.
+  apply Forall2_app_inv_l in F1. destruct F1 as (gfs & gq & Ffs & Fq & Eg). subst g2.
+  assert (Hd : Forall dan fs).
+  { clear -Ffs. induction Ffs; constructor; [eapply fr_ok_dan; eassumption|assumption]. }
+  destruct (frames_smove (hs s) fs Hg Hd) as (out2 & akd & Hout & Hrx' & M & Hakd).
+  cbv zeta in Hout, Hrx', M.
+  destruct (rxs_phase K _ _ _ (map snd (first_tx (htrace s))) HK fs gfs Ffs _ gq g1 (rx_seq (hs s)) (h2n s)
+              Hrx D1 F2) as (g1a & Hn1 & Hn2 & Hn3 & Erx & D1' & F2').
+  cbv zeta in Hn1, Hn2, Hn3, Erx, D1', F2'.
+  set (o1 := flat_map out_of_rx (snd (rx_frames (rx_seq (hs s)) fs))) in *.
+  rewrite ags_app in D2. pose proof D2 as Hd2. destruct Hd2 as [_ Hrn _ _ _ _ _ _ _].
+  assert (D2a : Dir 1 hb (length (first_tx (htrace s))) (n_rx (ns s)) (map snd (first_tx (htrace s)))
+                    (nups s) (dgs (g1 ++ g1a)) (ags gq)).
+  { rewrite dgs_app, Hn3, app_nil_r. eapply dir_adrop. exact D2. }
+  assert (Hak : akd = true -> hb + 1 <= n_rx (ns s) /\ Forall (fun x => hb + 1 <= x) (ags gq)).
+  { intro Ht. destruct (Hakd Ht) as (c & f & Hc & Hin & Hack).
+    pose proof (hl_cur _ _ _ _ _ Hhl) as Hcu. rewrite (cur_key_some _ _ Hc) in Hcu.
+    destruct Hcu as (Hlen & Hfrm & _).
+    assert (Hg' : exists g, In g gfs /\ fr_ok (n_sub (ns s)) f g).
+    { clear -Ffs Hin. induction Ffs as [|x y l l' Hxy Hl IH]; [destruct Hin|].
+      destruct Hin as [E|Hin]; [subst x; exists y; split; [left; reflexivity|exact Hxy]|].
+      destruct (IH Hin) as (g & Hg1 & Hg2). exists g. split; [right; exact Hg1|exact Hg2]. }
+    destruct Hg' as (g & Hgin & Hgf).
+    assert (Hain : In (ga g) (ags gfs)) by (apply in_map; exact Hgin).
+    destruct (dir_amid _ _ _ _ _ _ _ _ _ _ D2 Hain) as (Ha1 & Ha2 & Ha3).
+    pose proof (fr_ok_ack _ _ _ Hgf) as Hfa.
+    assert (ga g = hb + 1).
+    { destruct f as [frm re a p|x y a|x y a| |v c0|v c0]; cbn [f_ack] in Hfa; try discriminate;
+        injection Hfa as Hfa; subst a; cbn [acks] in Hack; rewrite Hfrm in Hack;
+        unfold num8 in Hack; lia. }
+    split; [lia|]. eapply Forall_impl; [|exact Ha3]. cbn. intros; lia. }
+  destruct (inv_smove K _ (hs s) _ _ _ hb _ subs _ _ _ _ _ _ _ _ _ _ _ _ Hhl D1' D2a F2' Erx M Hak)
+    as (g1' & hb' & Hhl' & D1'' & D2' & F2'' & Hups).
+  exists g1', gq, hb'. unfold host_do.
+  cbn [set_n2h hs ns h2n n2h htrace nups]. rewrite Hout.
+  constructor; cbn [hs ns h2n n2h htrace nups];
+    rewrite ?first_tx_app, ?oks_app, ?ups_of_app, ?wire_app, ?Hups, ?Hn1, ?Hn2; cbn [app];
+    rewrite ?app_nil_r, ?app_assoc; try assumption.
+  - apply (step_ginv (hs s) (Frames fs)). exact Hg.
+  - rewrite Hrx'. exact Erx.
+Qed.
+
 (* ---- every label preserves the invariant --------------------------------------------------------- *)
 Lemma inv_step K subs s l : K <= 7 -> SInv K subs s -> SInv K (subs ++ lsubmits [l]) (link_step K s l).
 Proof.
   intros HK H.
-  destruct l as [id p|id| |t|p|i re| | | | | | | | | | ]; cbn [lsubmits flat_map app link_step]; rewrite ?app_nil_r.
+  destruct l as [id p|id| |t|p|i re| | | | | | |n| | | | ]; cbn [lsubmits flat_map app link_step]; rewrite ?app_nil_r.
   - apply inv_submit. exact H.
   - destruct H as (g1 & g2 & hb & HI). destruct (cancel_smove (hs s) id) as [M Hr].
     apply inv_host_plain; [exists g1, g2, hb; exact HI|exact M|exact Hr].
@@ -1100,6 +1273,7 @@ Proof.
   - apply inv_hdrop. exact H.
   - apply inv_hdup. exact H.
   - destruct (n2h s) as [|f q] eqn:E; [exact H|]. eapply inv_hcorrupt; eassumption.
+  - apply inv_hread; assumption.
   - destruct (h2n s) as [|f q] eqn:E; [exact H|]. cbv zeta. apply inv_ndeliver; assumption.
   - apply inv_ndrop. exact H.
   - apply inv_ndup. exact H.
@@ -1403,7 +1577,7 @@ Qed.
 Lemma rc_step K s1 s2 l : Rc s1 s2 -> is_cancel l = false -> Rc (link_step K s1 l) (link_step K s2 l).
 Proof.
   intros HR Hl.
-  destruct l as [id p|id| |t|p|i re| | | | | | | | | | ]; cbn [is_cancel] in Hl; try discriminate;
+  destruct l as [id p|id| |t|p|i re| | | | | | |n| | | | ]; cbn [is_cancel] in Hl; try discriminate;
     cbn [link_step]; try (apply rc_host_do; [exact HR|exact I]);
     pose proof HR as [H1 H2 H3 H4 H5 H6]; rewrite ?H2, ?H3, ?H4.
   - constructor; cbn [ncp_sends hs ns h2n n2h htrace nups]; rewrite ?H4, ?H5; try assumption; reflexivity.
@@ -1419,6 +1593,8 @@ Proof.
   - destruct (n2h s1) as [|f q]; [exact HR|]. rewrite H1. change (rx_seq (u (hs s1))) with (rx_seq (hs s1)).
     constructor; cbn [hs ns h2n n2h htrace nups]; rewrite ?H3; try assumption; try reflexivity.
     intros D HD. rewrite !strip_app, (H6 D HD). reflexivity.
+  - apply rc_host_do; [|exact I].
+    constructor; cbn [set_n2h hs ns h2n n2h htrace nups]; try assumption; reflexivity.
   - destruct (h2n s1) as [|f q]; [exact HR|]. cbv zeta.
     constructor; cbn [hs ns h2n n2h htrace nups]; rewrite ?H5; try assumption; reflexivity.
   - constructor; cbn [set_h2n hs ns h2n n2h htrace nups]; try assumption; reflexivity.
@@ -1469,7 +1645,7 @@ Proof.
     destruct (u_host_step (cancelled (hs s')) (hs s') e He (sub_mem_refl _)) as (_ & E & _). exact E. }
   assert (Hno : forall (l' : label) (X : Prop), l' <> LCancel id -> (X <-> X \/ In (LCancel id) [l'])).
   { intros l' X Hne. cbn [In]. split; [intro H; left; exact H|intros [H|[H|[]]]; [exact H|congruence]]. }
-  destruct l as [i p|i| |t|p|i re| | | | | | | | | | ]; cbn [link_step].
+  destruct l as [i p|i| |t|p|i re| | | | | | |n| | | | ]; cbn [link_step].
   - rewrite (Hh s (Submit i p) I). apply Hno. discriminate.
   - unfold host_do. cbn [hs].
     destruct (step_cancel_cases (hs s) i) as [E|E]; rewrite E; cbn [fst cancelled_by cancelled In].
@@ -1491,6 +1667,8 @@ Proof.
   - cbn [set_n2h hs]. apply Hno. discriminate.
   - cbn [set_n2h hs]. apply Hno. discriminate.
   - destruct (n2h s) as [|f q]; cbn [hs]; apply Hno; discriminate.
+  - rewrite (Hh (set_n2h s (skipn n (n2h s))) (Frames (firstn n (n2h s))) I). cbn [set_n2h hs].
+    apply Hno. discriminate.
   - destruct (h2n s) as [|f q]; cbn [hs]; apply Hno; discriminate.
   - cbn [set_h2n hs]. apply Hno. discriminate.
   - cbn [set_h2n hs]. apply Hno. discriminate.
